@@ -65,10 +65,10 @@ func filtersForSelectorsElements(functionType model.FunctionType, filters []mode
 	if !util.IsNil(deleteSelector) || !util.IsNil(deleteElements) {
 		filter := model.FilterType{CmdControl: &model.CmdControlType{Delete: &model.ElementTagType{}}}
 		if !util.IsNil(deleteSelector) {
-			filter = addSelectorToFilter(filter, functionType, &deleteSelector)
+			filter = addSelectorToFilter(filter, functionType, deleteSelector)
 		}
 		if !util.IsNil(deleteElements) {
-			filter = addElementToFilter(filter, functionType, &deleteElements)
+			filter = addElementToFilter(filter, functionType, deleteElements)
 		}
 		filters = append(filters, filter)
 	}
